@@ -24,10 +24,29 @@ def contexts(run, **kw):
         if pending is not None:
             run.driver.ask(pending[1].line)
             yield pending
+            if seen % 4 == 0:
+                yield from _reloaded_twin(run, pending)
         pending = (tab, pc)
     if pending is not None:
         run.driver.ask(pending[1].line)
         yield pending
+        yield from _reloaded_twin(run, pending)
+
+
+def _reloaded_twin(run, pending):
+    """The same context obtained another way: serialised with its lattice and loaded again (`Lattice._fromlist` instead
+    of `Lattice.__init__`), after the original lattice exists. Every lattice-level observable must be the same."""
+    import copy
+    import concepts
+    tab, pc = pending
+    if min(pc.n, pc.m) > 8:
+        return
+    with guard(run, 'Context.fromdict(context.todict())', [pc.line, 'lattice']):
+        twin = copy.copy(pc)
+        twin.ctx = concepts.Context.fromdict(pc.ctx.todict())
+        twin.reloaded = True
+    run.count('contexts reloaded from todict() (lattice not built by __init__)')
+    yield tab, twin
 
 
 def subsets(run, k, limit_all=6, sample=20):
